@@ -1158,7 +1158,8 @@ class HttpPayloadParser:
 
                     self._trailer_lines.append(line)
 
-                    if len(self._trailer_lines) > self._max_trailers:
+                    # The empty line that ends the section is not a trailer field
+                    if line and len(self._trailer_lines) > self._max_trailers:
                         raise BadHttpMessage("Too many trailers received")
 
                     # \r\n\r\n found, end of stream
